@@ -26,6 +26,10 @@ RULE = ('Sequential part (enumerated completely): every public builder method {b
         'distinct combination / schedule.')
 ASSUMPTIONS = ['the set of public methods is taken from the class at run time (dir(FileBuilder) minus build/build_versioned/clean)']
 
+class RootFailure(Exception):
+    """Raised by the root function of the 'root_raise' race owner."""
+
+
 class Abort(BaseException):
     """User code may also end with a BaseException that is not an Exception (KeyboardInterrupt, SystemExit, ...)."""
 
@@ -203,7 +207,7 @@ def all_combos():
 # --------------------------------------------------------------------------------------------------
 
 RACE_METHODS = ['is_file', 'exists', 'is_dir', 'list_dir', 'walk', 'get_size', 'declare_read', 'read_text', 'subbuild', 'build_file']
-RACE_OWNERS = ['sub', 'file', 'root']
+RACE_OWNERS = ['sub', 'file', 'root', 'root_raise']
 
 
 def race_once(method, owner, spec):
@@ -233,6 +237,7 @@ def race_once(method, owner, spec):
             return 'late'
 
         def straggler(b):
+            info['started_after_end'] = bool(info.get('owner_ended'))
             try:
                 if method == 'build_file':
                     r = b.build_file(late_out, 'late', late_func)
@@ -307,13 +312,16 @@ def race_once(method, owner, spec):
             return 'root'
 
         def root_owner(b):
-            # the root function itself is the owner: it starts the straggler and returns, so the straggler races
-            # with the end of the build (cache write and commit run in the same managed thread as the root function)
+            # the root function itself is the owner: it starts the straggler and returns (or raises), so the straggler
+            # races with the end of the build (cache write and commit / rollback run in the same managed thread)
             owner_body(b)
+            info['owner_ended'] = True
+            if owner == 'root_raise':
+                raise RootFailure('root function fails')
             return 'root'
 
         try:
-            if owner == 'root':
+            if owner in ('root', 'root_raise'):
                 S[0] = sched.Sched(spec)
                 res = S[0].run_all([lambda: FileBuilder.build(cache, 'c17r', root_owner)])
                 info['decisions'] = S[0].n
@@ -323,6 +331,8 @@ def race_once(method, owner, spec):
                 info['outcome'] = ('ok', res[0][1])
             else:
                 info['outcome'] = ('ok', FileBuilder.build(cache, 'c17r', root))
+        except RootFailure:
+            info['outcome'] = ('rolled_back', None)
         except Exception as e:
             info['outcome'] = ('exc', type(e).__name__ + ': ' + str(e)[:80])
         sched.disable()
@@ -351,7 +361,7 @@ def race_once(method, owner, spec):
                         if under_owner:
                             attached = True
                     walk_ops(op.get('suboperations', []), under_owner or is_owner)
-            walk_ops(cj.get('rootOperations', []), owner == 'root')
+            walk_ops(cj.get('rootOperations', []), owner in ('root', 'root_raise'))
         info['attached'] = attached
         info['anywhere'] = anywhere
         # behavioural confirmation: flip the probed answer and rebuild (the spawn is not repeated: plain functions)
@@ -380,7 +390,7 @@ def race_once(method, owner, spec):
             else:
                 b.build_file(os.path.join(R, 'out', 'o'), 'owner', lambda bb, p: owner2(bb, p))
             return 'root'
-        if cj is not None and method not in ('subbuild', 'build_file') and owner != 'root':
+        if cj is not None and method not in ('subbuild', 'build_file') and owner not in ('root', 'root_raise'):
             try:
                 FileBuilder.build(cache, 'c17r', root2)
                 info['owner_reexecuted_after_flip'] = bool(relog)
@@ -406,11 +416,33 @@ def check_race(method, owner, spec):
         fails.append(failure('C17.race_deadlock', 'deadlock between the straggler and the returning owner', case, ''))
     if st_ is None:
         raise RuntimeError('harness: straggler never ran (%r)' % (info.get('outcome'),))
+    if owner == 'root_raise':
+        # the build is rolled back.  A call that *starts* after the root function ended must be refused (call-level
+        # schedules only: in line mode the few lines between the raise and the fence are scheduling points too)
+        if info['outcome'][0] != 'rolled_back':
+            fails.append(failure('C17.race_build_failed', 'the failing root function\'s exception was replaced: %r' % (info['outcome'],), case, ''))
+            return fails, info
+        if not spec.get('lines') and info.get('started_after_end') and st_[0] != 'RuntimeError':
+            fails.append(failure('C17.not_fenced', 'straggler %s on the root builder started after the root function had raised and was not '
+                                 'refused (%s)' % (method, st_[0]), case, st_[1]))
+        if st_[0] == 'RuntimeError' and method in ('subbuild', 'build_file') and (info['late_invoked'] or info['late_file']):
+            fails.append(failure('C17.race_refused_with_effect',
+                                 'straggler %s was refused with RuntimeError but had an effect (function invoked=%s, output exists=%s)' % (
+                                     method, info['late_invoked'], info['late_file']), case, ''))
+        if info['late_file'] or info['cache'] is not None:
+            fails.append(failure('C17.race_root_orphan', 'after the rolled-back build: straggler output exists=%s, cache file exists=%s' % (
+                info['late_file'], info['cache'] is not None), case, ''))
+        if info['tmp']:
+            fails.append(failure('C17.race_effect', 'temporary directory left', case, ''))
+        return fails, info
     if info['outcome'][0] != 'ok':
         fails.append(failure('C17.race_build_failed', 'the build failed because of the straggler: %s' % info['outcome'][1][:60], case, ''))
         return fails, info
     if st_[0] not in ('value', 'RuntimeError'):
         fails.append(failure('C17.race_exception', 'straggler %s raised %s (neither a result nor RuntimeError)' % (method, st_[0]), case, st_[1]))
+    if owner == 'root' and not spec.get('lines') and info.get('started_after_end') and st_[0] != 'RuntimeError':
+        fails.append(failure('C17.not_fenced', 'straggler %s on the root builder started after the root function had returned and was not '
+                             'refused (%s)' % (method, st_[0]), case, st_[1]))
     if owner == 'root':
         # the root function is not cacheable: a query result needs no record; an accepted build_file/subbuild must be
         # part of the committed build (recorded in the cache file, output present), a refused one must have no effect
